@@ -70,6 +70,15 @@ def decodeFirst {α β : Type} (next : α → Step α β) (inp : α) : Option β
   | .val v _ => some v
   | _ => none
 
+/-- The variant that was NOT written (sixth wave): one `dec.Decode(&v)`, then "is anything left?" is
+asked of `dec.Buffered()` only. `buffered rest` = that part of the remaining input which the decoder
+has already read from its source (a `json.Decoder` reads in pieces — 512 bytes, then its buffer grows
+to 1536, 3584 … — and stops reading as soon as the value is complete). -/
+def decodeBuffered {α β : Type} (next : α → Step α β) (atEnd : α → Bool) (buffered : α → α) (inp : α) : Option β :=
+  match next inp with
+  | .val v rest => if atEnd (buffered rest) then some v else none
+  | _ => none
+
 /-- Specification: the input is a sequence of values up to its end. -/
 inductive Stream {α β : Type} (next : α → Step α β) : α → List β → Prop where
   | done {inp : α} : next inp = .eof → Stream next inp []
@@ -294,6 +303,12 @@ def more (cs : List Char) : Bool :=
   match skipWs cs with
   | [] => false
   | c :: _ => c != ']' && c != '}'
+
+/-- What a decoder that reads its source in pieces of `k` bytes has buffered beyond the value it has
+just returned: the remaining input up to the next multiple of `k`, counted from the start of `text`
+(nothing when the value ended exactly on a piece boundary). -/
+def bufferedChunk (k : Nat) (text rest : List Char) : List Char :=
+  rest.take ((k - (text.length - rest.length) % k) % k)
 
 /-- Specification used by the oracle: is this text a well-formed file of the given kind? -/
 def streamOk (ok : V → Bool) (text : List Char) : Option (List V) := decodeLoop (next ok) (text.length + 1) text []
